@@ -1326,3 +1326,217 @@ Proof.
   - eapply Nat.lt_le_trans; [exact Hlt|].
     eapply Nat.le_trans; [exact (ms_wle g _ [] _ [] (stage_fold_ms g (seq 0 (length g)) s2) h)|]. fold (wt g s2 h). unfold s2. rewrite pre_state_wt. lia.
 Qed.
+
+(** * Part G: reachable states, input streams, termination *)
+
+(** states the conductor loop can be in: the initial state, and the state after a
+    poll on valid input that returned RUNNING (the loop goes on) *)
+Inductive reach_st (c : cfg) (g : graph) : st -> Prop :=
+| rs_init : reach_st c g (init g)
+| rs_poll s p : reach_st c g s -> valid_pin s p = true -> snd (poll c g s p) = SRUNNING ->
+    reach_st c g (fst (poll c g s p)).
+
+Lemma poll_running c g s p : snd (poll c g s p) = SRUNNING ->
+  aborts c p = false /\ completion_gen g (fst (poll c g s p)) = SRUNNING.
+Proof. rewrite poll_status. destruct (aborts c p); [discriminate|auto]. Qed.
+
+Lemma reach_st_inv c g s : WF g -> reach_st c g s ->
+  Inv g s /\ Thr c s /\ LInv g s /\ (s = init g \/ completion_gen g s = SRUNNING).
+Proof.
+  intros W. induction 1 as [|s p R (I & T & L & _) V E].
+  - splits; [apply init_Inv | apply init_Thr | apply init_LInv | left; reflexivity].
+  - destruct (poll_Inv c g s p W I T V) as [I' T']. splits; auto.
+    + apply poll_LInv; auto.
+    + right. apply poll_running. exact E.
+Qed.
+
+(** a poll that delivers (query code OK, not a dry run) a terminal report for an in-progress job *)
+Definition delivers_terminal (c : cfg) (s : st) (p : pin) : bool :=
+  negb (dry c) && qcode_eqb (qcode p) QOK &&
+  existsb (fun r => mem (fst r) (inprog s) && match snd r with Some v => terminal v | None => false end) (reports p).
+(** a poll that delivers a HWFAILURE report, or a TIMEDOUT report for a step with unlimited restarts *)
+Definition noisy_report (g : graph) (r : nat * option State) : bool :=
+  match snd r with
+  | Some HWFAILURE => true
+  | Some TIMEDOUT => has_restart (attr g (fst r)) && (rlimit (attr g (fst r)) =? 0)
+  | _ => false
+  end.
+Definition noisy (c : cfg) (g : graph) (p : pin) : bool :=
+  negb (dry c) && qcode_eqb (qcode p) QOK && existsb (noisy_report g) (reports p).
+
+Lemma existsb_false_forall {A} (f : A -> bool) l : existsb f l = false -> forall a, In a l -> f a = false.
+Proof.
+  intros H a Ha. destruct (f a) eqn:E; auto. assert (existsb f l = true) by (apply existsb_exists; eauto). congruence.
+Qed.
+
+Lemma quiet_no_hw c g p : noisy c g p = false -> hw_delivered c p = false.
+Proof.
+  unfold noisy, hw_delivered. destruct (negb (dry c) && qcode_eqb (qcode p) QOK); cbn [andb]; auto.
+  intros H. destruct (existsb is_hw (reports p)) eqn:E; auto.
+  apply existsb_exists in E. destruct E as (r & Hr & E). pose proof (existsb_false_forall _ _ H r Hr) as K.
+  unfold is_hw in E. unfold noisy_report in K. destruct (snd r) as [[]|]; cbn in E; congruence.
+Qed.
+
+Lemma quiet_terminal_productive c g s p : noisy c g p = false -> delivers_terminal c s p = true ->
+  productive c g s p = true.
+Proof.
+  unfold noisy, delivers_terminal, productive. destruct (negb (dry c) && qcode_eqb (qcode p) QOK); cbn [andb]; auto.
+  intros H E. apply existsb_exists in E. destruct E as (r & Hr & E). apply existsb_exists. exists r. split; auto.
+  apply andb_true_iff in E. destruct E as [E1 E2]. rewrite E1. cbn [andb].
+  pose proof (existsb_false_forall _ _ H r Hr) as K. unfold noisy_report in K.
+  destruct (snd r) as [v|]; [|discriminate]. destruct v; cbn in *; try discriminate; auto. rewrite K. reflexivity.
+Qed.
+
+Section Stream.
+Variables (c : cfg) (g : graph) (s0 : st) (ps : nat -> pin).
+
+(** the unfolding of the monitor loop on an infinite input stream (not stopped) *)
+Fixpoint state_at (n : nat) : st :=
+  match n with 0 => s0 | S n' => fst (poll c g (state_at n') (ps n')) end.
+(** the status returned by poll number [n] (counting from 0); the loop stops at
+    the first [n] whose status is not RUNNING *)
+Definition status_at (n : nat) : SStatus := snd (poll c g (state_at n) (ps n)).
+
+Definition valid_stream : Prop := forall n, valid_pin (state_at n) (ps n) = true.
+Definition no_error : Prop := forall n, aborts c (ps n) = false.
+Definition fair : Prop := forall n, inprog (state_at n) <> [] ->
+  exists m, n <= m /\ delivers_terminal c (state_at m) (ps m) = true.
+Definition quiet_from (N : nat) : Prop := forall m, N <= m -> noisy c g (ps m) = false.
+Definition quiet : Prop := exists N, quiet_from N.
+
+Hypothesis W : WF g.
+Hypothesis I0 : Inv g s0.
+Hypothesis T0 : Thr c s0.
+Hypothesis L0 : LInv g s0.
+Hypothesis V : valid_stream.
+
+Lemma stream_inv n : Inv g (state_at n) /\ Thr c (state_at n) /\ LInv g (state_at n).
+Proof.
+  induction n as [|n (I & T & L)]; [splits; auto|]. cbn [state_at].
+  destruct (poll_Inv c g (state_at n) (ps n) W I T (V n)) as [I' T']. splits; auto.
+  apply poll_LInv; auto.
+Qed.
+
+Lemma status_dec (r : SStatus) : r = SRUNNING \/ r <> SRUNNING.
+Proof. destruct r; auto; right; discriminate. Qed.
+
+Lemma status_running_next n : status_at n = SRUNNING -> completion_gen g (state_at (S n)) = SRUNNING.
+Proof. intros H. unfold status_at in H. apply (poll_running c g) in H. apply H. Qed.
+
+(** the potential never increases on quiet polls *)
+Lemma walk N d : quiet_from N -> forall m, N <= m ->
+  (exists n, status_at n <> SRUNNING) \/
+  (Phi g (state_at (m + d)) <= Phi g (state_at m) /\
+   (completion_gen g (state_at m) = SRUNNING -> completion_gen g (state_at (m + d)) = SRUNNING)).
+Proof.
+  intros Q. induction d as [|d IH]; intros m Hm.
+  - right. rewrite Nat.add_0_r. split; auto.
+  - destruct (IH m Hm) as [E|[P C]]; [left; exact E|].
+    destruct (status_dec (status_at (m + d))) as [R|R]; [|left; eauto].
+    right. replace (m + S d) with (S (m + d)) by lia. split.
+    + cbn [state_at]. eapply Nat.le_trans; [|exact P]. apply poll_phi_le. apply (quiet_no_hw c g). apply Q. lia.
+    + intros _. apply status_running_next. exact R.
+Qed.
+
+Theorem terminates_from N : quiet_from N -> no_error -> fair ->
+  forall k m, N <= m -> completion_gen g (state_at m) = SRUNNING -> Phi g (state_at m) <= k ->
+  exists n, status_at n <> SRUNNING.
+Proof.
+  intros Q NE F. induction k as [|k IH]; intros m Hm C P.
+  - (* potential 0 while RUNNING is impossible: the next productive poll would decrease it *)
+    destruct (stream_inv m) as (I & T & L).
+    destruct (inprog (state_at m)) as [|a l] eqn:Ei.
+    + pose proof (poll_phi_lt_idle c g (state_at m) (ps m) W I L (V m) Ei C (NE m)). lia.
+    + destruct (F m) as (m' & Hle & D); [rewrite Ei; discriminate|].
+      destruct (walk N (m' - m) Q m Hm) as [E|[P' _]]; [exact E|].
+      replace (m + (m' - m)) with m' in P' by lia.
+      destruct (stream_inv m') as (I' & _ & _).
+      assert (Q' : noisy c g (ps m') = false) by (apply Q; lia).
+      pose proof (poll_phi_lt_report c g (state_at m') (ps m') I' (quiet_no_hw _ _ _ Q')
+                    (quiet_terminal_productive _ _ _ _ Q' D)). lia.
+  - destruct (stream_inv m) as (I & T & L).
+    destruct (inprog (state_at m)) as [|a l] eqn:Ei.
+    + pose proof (poll_phi_lt_idle c g (state_at m) (ps m) W I L (V m) Ei C (NE m)) as Lt.
+      destruct (status_dec (status_at m)) as [R|R]; [|eauto].
+      apply (IH (S m)); [lia | apply status_running_next; exact R | cbn [state_at]; lia].
+    + destruct (F m) as (m' & Hle & D); [rewrite Ei; discriminate|].
+      destruct (walk N (m' - m) Q m Hm) as [E|[P' C']]; [exact E|].
+      replace (m + (m' - m)) with m' in P', C' by lia.
+      destruct (stream_inv m') as (I' & _ & _).
+      assert (Q' : noisy c g (ps m') = false) by (apply Q; lia).
+      pose proof (poll_phi_lt_report c g (state_at m') (ps m') I' (quiet_no_hw _ _ _ Q')
+                    (quiet_terminal_productive _ _ _ _ Q' D)) as Lt.
+      destruct (status_dec (status_at m')) as [R|R]; [|eauto].
+      apply (IH (S m')); [lia | apply status_running_next; exact R | cbn [state_at]; lia].
+Qed.
+
+Theorem terminates : no_error -> fair -> quiet -> exists n, status_at n <> SRUNNING.
+Proof.
+  intros NE F [N Q].
+  destruct (status_dec (status_at N)) as [R|R]; [|eauto].
+  apply (terminates_from N Q NE F (Phi g (state_at (S N))) (S N)); [lia | apply status_running_next; exact R | lia].
+Qed.
+
+(** quantitative form: while the loop runs on quiet input, every productive poll
+    (idle, or delivering a terminal report) uses up at least one unit of potential *)
+Definition productive_poll (n : nat) : bool :=
+  is_nil (inprog (state_at n)) || delivers_terminal c (state_at n) (ps n).
+Fixpoint count_productive (n : nat) : nat :=
+  match n with 0 => 0 | S n' => count_productive n' + (if productive_poll n' then 1 else 0) end.
+
+Theorem productive_bound n : completion_gen g s0 = SRUNNING -> no_error ->
+  (forall m, m < n -> noisy c g (ps m) = false /\ status_at m = SRUNNING) ->
+  count_productive n + Phi g (state_at n) <= Phi g s0.
+Proof.
+  intros C0 NE. induction n as [|n IH]; intros H; [cbn; lia|].
+  assert (IHn : count_productive n + Phi g (state_at n) <= Phi g s0) by (apply IH; intros; apply H; lia).
+  destruct (H n (Nat.lt_succ_diag_r n)) as [Qn Rn].
+  assert (Cn : completion_gen g (state_at n) = SRUNNING).
+  { destruct n as [|n']; [exact C0|]. apply status_running_next. apply H. lia. }
+  destruct (stream_inv n) as (I & T & L).
+  cbn [count_productive state_at].
+  pose proof (poll_phi_le c g (state_at n) (ps n) (quiet_no_hw _ _ _ Qn)) as Le.
+  destruct (productive_poll n) eqn:Pn; [|lia].
+  unfold productive_poll in Pn. apply orb_true_iff in Pn. destruct Pn as [Pn|Pn].
+  - apply is_nil_true in Pn.
+    pose proof (poll_phi_lt_idle c g (state_at n) (ps n) W I L (V n) Pn Cn (NE n)). lia.
+  - pose proof (poll_phi_lt_report c g (state_at n) (ps n) I (quiet_no_hw _ _ _ Qn)
+                  (quiet_terminal_productive _ _ _ _ Qn Pn)). lia.
+Qed.
+
+End Stream.
+
+(** a closed bound on the potential: 3 per instance plus its finite restart limit *)
+Lemma wt_bound g s x : wt g s x <= 3 + rlimit (attr g x).
+Proof.
+  unfold wt, wtR. destruct (resolvedb s x || mem x []); [lia|].
+  pose proof (stagew_le3 s x). unfold budget. destruct (has_restart (attr g x) && negb (rlimit (attr g x) =? 0)); lia.
+Qed.
+Theorem Phi_bound g s : Phi g s <= sumf (fun x => 3 + rlimit (attr g x)) (seq 0 (length g)).
+Proof. apply sumf_le. intros x _. apply wt_bound. Qed.
+
+(** the unstopped stream agrees with [run_states] as long as the loop runs *)
+Lemma state_at_shift c g s0 ps k :
+  state_at c g s0 ps (S k) = state_at c g (fst (poll c g s0 (ps 0))) (fun i => ps (S i)) k.
+Proof. induction k as [|k IH]; [reflexivity|]. cbn [state_at] in *. rewrite IH. reflexivity. Qed.
+
+Lemma status_at_shift c g s0 ps k :
+  status_at c g s0 ps (S k) = status_at c g (fst (poll c g s0 (ps 0))) (fun i => ps (S i)) k.
+Proof. unfold status_at. rewrite state_at_shift. reflexivity. Qed.
+
+Theorem run_states_stream c g : forall n s0 ps,
+  (forall k, k < n -> status_at c g s0 ps k = SRUNNING) ->
+  run_states c g s0 (map ps (seq 0 (S n))) =
+  map (fun k => (state_at c g s0 ps (S k), status_at c g s0 ps k)) (seq 0 (S n)).
+Proof.
+  induction n as [|n IH]; intros s0 ps H.
+  - cbn [seq map run_states]. unfold status_at. cbn [state_at].
+    destruct (poll c g s0 (ps 0)) as [s1 r]. cbn [fst snd]. destruct r; reflexivity.
+  - change (seq 0 (S (S n))) with (0 :: seq 1 (S n)). rewrite <- seq_shift, !map_cons, !map_map.
+    cbn [run_states]. pose proof (H 0 (Nat.lt_0_succ n)) as R0. unfold status_at in R0. cbn [state_at] in R0.
+    destruct (poll c g s0 (ps 0)) as [s1 r] eqn:E. cbn [fst snd] in *. subst r. f_equal.
+    { unfold status_at. cbn [state_at]. rewrite E. reflexivity. }
+    rewrite (IH s1 (fun i => ps (S i))).
+    + apply map_ext. intros k. rewrite (state_at_shift c g s0 ps (S k)), (status_at_shift c g s0 ps k), E. reflexivity.
+    + intros k Hk. specialize (H (S k) (proj1 (Nat.succ_lt_mono k n) Hk)). rewrite status_at_shift, E in H. exact H.
+Qed.
